@@ -115,6 +115,7 @@ func loadRaw(repo string, overlay map[string][]byte) (*Program, error) {
 		}
 	}
 	sort.Slice(p.All, func(i, j int) bool { return p.All[i].PkgPath < p.All[j].PkgPath })
+	desugarSliceIterators(p.All)
 	indexFuncAliases(p.All)
 	return p, nil
 }
@@ -484,4 +485,49 @@ func GM(rel, recv, method string) string {
 		recv = recv[1:]
 	}
 	return "(" + star + ModulePath + "/" + rel + "." + recv + ")." + method
+}
+
+// desugarSliceIterators shows `for i, v := range slices.All(s)` as `for i, v := range s` and `for v := range
+// slices.Values(s)` as `for _, v := range s` to every rule: the standard iterators yield the same indices and elements
+// in the same order, evaluate s once, and break/return leave them like the plain loop. The nodes are edited in place
+// (the operand keeps its recorded type, the loop variables their objects), so positions and reports are unchanged.
+func desugarSliceIterators(pkgs []*packages.Package) {
+	for _, pkg := range pkgs {
+		info := pkg.TypesInfo
+		for _, file := range pkg.Syntax {
+			ast.Inspect(file, func(n ast.Node) bool {
+				rs, ok := n.(*ast.RangeStmt)
+				if !ok {
+					return true
+				}
+				call, ok := ast.Unparen(rs.X).(*ast.CallExpr)
+				if !ok || len(call.Args) != 1 || call.Ellipsis.IsValid() {
+					return true
+				}
+				fn := CalleeFunc(info, call)
+				if fn == nil || fn.Pkg() == nil || fn.Pkg().Path() != "slices" {
+					return true
+				}
+				if t := info.TypeOf(call.Args[0]); t == nil {
+					return true
+				} else if _, isSlice := t.Underlying().(*types.Slice); !isSlice {
+					return true
+				}
+				switch fn.Name() {
+				case "All":
+					rs.X = call.Args[0]
+				case "Values":
+					if rs.Value != nil {
+						return true
+					}
+					rs.X = call.Args[0]
+					if rs.Key != nil {
+						rs.Value = rs.Key
+						rs.Key = &ast.Ident{NamePos: rs.Value.Pos(), Name: "_"}
+					}
+				}
+				return true
+			})
+		}
+	}
 }
